@@ -867,3 +867,65 @@ def run_c11_path(c):
     add("c:dtw_cc.warping_path_ndim", lambda: dtw_cc.warping_path_ndim(a, b, nd, include_distance=True, **kwz), True)
     add("native:dtw_warping_path_ndim", lambda: tuple(reversed(_native_path(c))), True)
     return {"id": c["id"], "routes": routes, "paths": paths, "d": ds}
+
+
+
+# C05: custom start cells (dtw.best_path(row=, col=) and C dtw_best_path_customstart on the compact matrix)
+def run_c05_custom(c):
+    import ctypes
+    import random
+    from dtaidistance import dtw
+    from . import native
+    nd = ndim_of(c)
+    kw = settings(c)
+    l1, l2 = len(c["s1"]), len(c["s2"])
+    a, b = series(c, "s1", "numpy"), series(c, "s2", "numpy")
+    rng = random.Random("cs-%s" % c["id"])
+    w = c["w"] or max(l1, l2)
+    cells = [(l1, l2)]
+    for _ in range(3):
+        r = rng.randint(1, l1)
+        lo = max(1, r - max(0, l1 - l2) - w + 1)
+        hi = min(l2, r + max(0, l2 - l1) + w - 1)
+        if lo <= hi:
+            cells.append((r, rng.randint(lo, hi)))
+    routes, paths, starts = [], [], []
+    sdt = dtw.DTWSettings(**kw)
+    rm = guarded(lambda: dtw.warping_paths(a, b, keep_int_repr=True, psi_neg=False, **kw)[1])
+    lib = native.lib("plain")
+    st = lib.settings(c)
+    n = lib.L.dtw_settings_wps_length(l1, l2, st)
+    A = native.Buf(l1 * nd, fill=native.flat_series(c, "s1"))
+    B = native.Buf(l2 * nd, fill=native.flat_series(c, "s2"))
+    W = native.Buf(n, fill=float("nan"))
+    lib.L.dtw_warping_paths_ndim(W.ptr, A.ptr, l1, B.ptr, l2, True, True, False, nd, st)
+    for (rs, cs) in cells:
+        routes.append("py:best_path[row=%d,col=%d]" % (rs, cs))
+        starts.append([rs, cs])
+        if is_raised(rm):
+            paths.append([[-3, -3]])
+        else:
+            r = guarded(lambda: dtw.best_path(rm, row=rs, col=cs, penalty=sdt.adj_penalty))
+            paths.append([[-3, -3]] if is_raised(r) else enc_path(r))
+        routes.append("native:dtw_best_path_customstart[%d,%d]" % (rs, cs))
+        starts.append([rs, cs])
+        I1 = native.Buf(l1 + l2, native.idx_t, fill=-7)
+        I2 = native.Buf(l1 + l2, native.idx_t, fill=-7)
+        k = lib.L.dtw_best_path_customstart(W.ptr, I1.ptr, I2.ptr, l1, l2, rs, cs, st)
+        try:
+            I1.check("i1")
+            I2.check("i2")
+            W.check("wps")
+            if 0 <= k <= l1 + l2:
+                p = [(I1.arr[i], I2.arr[i]) for i in range(k)]
+                p.reverse()
+                paths.append(enc_path(p))
+            else:
+                paths.append([[-1, -1]])
+        except native.CanaryError:
+            paths.append([[-2, -2]])
+        I1.free()
+        I2.free()
+    for x in (A, B, W):
+        x.free()
+    return {"id": c["id"], "routes": routes, "paths": paths, "starts": starts}
